@@ -21,10 +21,16 @@ pub struct PrimeCase {
     /// multiply by the fixed non-residue (a guaranteed non-residue when combined with `squared`)
     pub times_nonresidue: bool,
     pub b: FeR,
+    /// Fr only (2-adicity 32, Tonelli-Shanks): replace a by w^(2^j) * a^(2^32), w a generator of the
+    /// 2^32-torsion: an element whose 2-power part has order exactly 2^(32-j) (j = 0: non-residue,
+    /// j = 32: trivial 2-part), every depth of the Tonelli-Shanks loop
+    #[serde(default)]
+    pub two_adic: Option<u8>,
 }
 
 fn prime_case_strategy(limbs: usize) -> BoxedStrategy<PrimeCase> {
-    (fe_strategy(limbs), any::<bool>(), any::<bool>(), fe_strategy(limbs)).prop_map(|(a, squared, times_nonresidue, b)| PrimeCase { a, squared, times_nonresidue, b }).boxed()
+    let ta = if limbs == 4 { prop_oneof![3 => Just(None), 1 => (0u8..=32).prop_map(Some)].boxed() } else { Just(None).boxed() };
+    (fe_strategy(limbs), any::<bool>(), any::<bool>(), fe_strategy(limbs), ta).prop_map(|(a, squared, times_nonresidue, b, two_adic)| PrimeCase { a, squared, times_nonresidue, b, two_adic }).boxed()
 }
 
 fn euler(a: &Z, p: &Z) -> i8 {
@@ -58,6 +64,24 @@ fn check_prime<F: PF>(c: &PrimeCase, info: &mut Info) -> Result<(), String> {
             g = g + Z::one();
         }
         az = (&az * &g) % p;
+    }
+    if let Some(j) = c.two_adic {
+        // 2-adic valuation s of p - 1 (32 for Fr, 1 for Fq)
+        let pm1 = p - Z::one();
+        let mut s = 0usize;
+        while ((&pm1 >> s) & Z::one()).is_zero() {
+            s += 1;
+        }
+        let mut g = Z::from(2u32);
+        while euler(&g, p) != -1 {
+            g = g + Z::one();
+        }
+        let w = g.modpow(&(&pm1 >> s), p); // generator of the 2^s-torsion
+        let j = std::cmp::min(j as usize, s);
+        let base = c.a.build(p, F::LIMBS);
+        let base = if base.is_zero() { Z::one() } else { base };
+        az = (w.modpow(&(Z::one() << j), p) * base.modpow(&(Z::one() << s), p)) % p;
+        info.class(format!("two-power-part-of-order-2^{}", s - j));
     }
     let e = euler(&az, p);
     info.class(match e {
@@ -161,6 +185,11 @@ pub enum Fq2Kind {
     Real,
     /// purely imaginary (c0 = 0)
     Imag,
+    /// an element constructed so that the intermediate value alpha = a^((q-1)/2) of the square-root algorithm
+    /// (an arbitrary element of norm +-1; -1 selects the special branch) is STRUCTURED: alpha = (c, d) or
+    /// (d, c) with c = a.c0 from the structured generator and d = sqrt(+-1 - c^2); a = alpha^e * t^2 with
+    /// e = ((q-1)/2)^-1 mod 2(q+1) and t = a.c1 in Fq. (pick: bit 0 norm sign, bit 1 position, bit 2 sign of d)
+    FromAlpha(u8),
 }
 
 #[derive(Clone, Debug, Serialize, Deserialize, PartialEq, Eq, Hash)]
@@ -177,8 +206,28 @@ fn fq2_case_strategy() -> BoxedStrategy<Fq2Case> {
         3 => Just(Fq2Kind::SquaredTimesNonResidue),
         3 => Just(Fq2Kind::Real),
         2 => Just(Fq2Kind::Imag),
+        3 => (0u8..8).prop_map(Fq2Kind::FromAlpha),
     ];
     (fq2_strategy(), kind, fq2_strategy()).prop_map(|(a, kind, b)| Fq2Case { a, kind, b }).boxed()
+}
+
+/// a with a^((q-1)/2) = alpha0 for a structured alpha0 of norm +-1 (None when the needed root does not exist)
+fn from_alpha(base: &Fq2, pick: u8) -> Option<Fq2> {
+    let q = refmodel::consts::q();
+    let c = base.c0.clone();
+    let n = if pick & 1 == 0 { Fq::one() } else { Fq::one().neg() };
+    let d = n.sub(&c.sqr()).sqrt()?;
+    let d = if pick & 4 != 0 { d.neg() } else { d };
+    let alpha0 = if pick & 2 == 0 { Fq2::new(c, d) } else { Fq2::new(d, c) };
+    // e = ((q-1)/2)^-1 mod 2(q+1) is (q-1)/2 itself: ((q-1)/2)^2 = 1 mod 2(q+1) for q = 3 mod 4
+    // (verified below on the element itself)
+    let half = (q - Z::one()) >> 1;
+    let a = alpha0.pow(&half);
+    if a.pow(&half) != alpha0 {
+        return None;
+    }
+    let t = if base.c1.is_zero() { Fq::one() } else { base.c1.clone() };
+    Some(a.mul(&Fq2::new(t.sqr(), Fq::zero())))
 }
 
 pub fn check_fq2(c: &Fq2Case, info: &mut Info) -> Result<(), String> {
@@ -189,6 +238,16 @@ pub fn check_fq2(c: &Fq2Case, info: &mut Info) -> Result<(), String> {
         Fq2Kind::SquaredTimesNonResidue => base.sqr().mul(&Fq2::new(Fq::one(), Fq::one())),
         Fq2Kind::Real => Fq2::new(base.c0.clone(), Fq::zero()),
         Fq2Kind::Imag => Fq2::new(Fq::zero(), base.c1.clone()),
+        Fq2Kind::FromAlpha(pick) => match from_alpha(&base, pick) {
+            Some(a) => {
+                info.class("constructed-from-structured-alpha");
+                a
+            }
+            None => {
+                info.class("constructed-from-structured-alpha:no-such-alpha (plain element used)");
+                base.clone()
+            }
+        },
     };
     let bm = c.b.build();
     let e = am.norm().euler();
@@ -197,6 +256,7 @@ pub fn check_fq2(c: &Fq2Case, info: &mut Info) -> Result<(), String> {
         match c.kind {
             Fq2Kind::Real => "in-Fq",
             Fq2Kind::Imag => "imaginary",
+            Fq2Kind::FromAlpha(_) => "from-alpha",
             _ => "general",
         },
         match e {
@@ -263,7 +323,7 @@ pub fn check_fq2(c: &Fq2Case, info: &mut Info) -> Result<(), String> {
 pub fn def() -> PropDef {
     PropDef {
         id: "C18",
-        rule: "Fq / Fr elements (boundary + uniform), their squares (guaranteed residues) and squares times the least non-residue (guaranteed non-residues); Fq2 elements: general, squares, squares times (1+u), embedded Fq elements (real / imaginary root), purely imaginary; comparison partner from the same generator (incl. equal u-coefficients). Oracle: Euler's criterion (of the norm for Fq2), b^2 = a in the model, parity of the canonical integer, integer / lexicographic order. Non-trivial = a not in {0,1}; distinct = distinct cases",
+        rule: "Fq / Fr elements (boundary + uniform), their squares (guaranteed residues) and squares times the least non-residue (guaranteed non-residues); Fq2 elements: general, squares, squares times (1+u), embedded Fq elements (real / imaginary root), purely imaginary, elements constructed backwards from a structured intermediate alpha = a^((q-1)/2) of the square-root algorithm (norm +-1 with a prescribed component), Fr elements with a prescribed order of the 2-power part (every Tonelli-Shanks depth 0..32); canonical limbs built from two words (repeated / cancelling limbs); comparison partner from the same generator (incl. equal u-coefficients). Oracle: Euler's criterion (of the norm for Fq2), b^2 = a in the model, parity of the canonical integer, integer / lexicographic order. Non-trivial = a not in {0,1}; distinct = distinct cases",
         needs_pairing: false,
         subs: vec![
             Box::new(Sub { name: "fq", rule: "Fq sqrt / legendre / sgn0 / order / negate_if", quick: 120_000, thorough: 400_000, strategy: || boxed(prime_case_strategy(6)), check: check_fq_prime }),
